@@ -176,6 +176,17 @@ func checkMain(args []string) {
 		}
 	}
 	sort.Strings(keys)
+	// Dependency closure: the proof of a tagged clause assumes the contracts of the functions it calls. Every
+	// in-module function under contract that a selected function calls (transitively; helpers without a
+	// contract are looked through) is verified too, with ALL its clauses: if one of them no longer holds, the
+	// property's proof rests on a false premise.
+	direct := map[string]bool{}
+	for _, k := range keys {
+		direct[k] = true
+	}
+	if os.Getenv("GOVC_NO_CLOSURE") == "" {
+		keys = eng.contractClosure(keys)
+	}
 	var reports []*FuncReport
 	var obls []*Obligation
 	var engineErrors []string
@@ -211,7 +222,7 @@ func checkMain(args []string) {
 				assumed[a] = true
 			}
 			for _, o := range rep.Obligations {
-				if len(o.Tags) == 0 || hasTag(o.Tags, *prop) {
+				if len(o.Tags) == 0 || hasTag(o.Tags, *prop) || !direct[k] {
 					obls = append(obls, o)
 				}
 			}
@@ -561,4 +572,62 @@ var standinPkgs = map[string][]string{
 	"C07": {"acl"}, "C08": {"server"}, "C09": {"db", "server", "client/setec"}, "C10": {"client/setec"}, "C11": {"client/setec"},
 	"C12": {"client/setec"}, "C13": {"client/setec"}, "C14": {"db"}, "C15": {"client/setec"}, "C16": {"client/setec"},
 	"C17": {"server"}, "C18": {"db", "client/setec", "cmd/setec"}, "C19": {"client/setec"}, "C20": {"client/setec"},
+}
+
+// contractClosure adds to keys every in-module function under contract reachable through static calls
+// (and closures created) from the functions of keys; functions without a contract are looked through.
+func (eng *Engine) contractClosure(keys []string) []string {
+	in := map[string]bool{}
+	var out []string
+	seenFn := map[*ssa.Function]bool{}
+	var visitFn func(f *ssa.Function)
+	var addKey func(k string)
+	addKey = func(k string) {
+		if in[k] {
+			return
+		}
+		in[k] = true
+		out = append(out, k)
+		for _, f := range eng.funcs[k] {
+			visitFn(f)
+		}
+	}
+	visitFn = func(f *ssa.Function) {
+		if f == nil || seenFn[f] || f.Blocks == nil {
+			return
+		}
+		seenFn[f] = true
+		touch := func(c *ssa.Function) {
+			if c == nil || !strings.HasPrefix(pkgPathOf(c), modPath) {
+				return
+			}
+			k := funcKey(c)
+			if fc := eng.specs.Funcs[k]; fc != nil {
+				if !fc.Trusted {
+					addKey(k)
+				}
+				return
+			}
+			visitFn(c) // no contract: inlined, look through
+		}
+		for _, b := range f.Blocks {
+			for _, ins := range b.Instrs {
+				if ci, ok := ins.(ssa.CallInstruction); ok {
+					touch(ci.Common().StaticCallee())
+				}
+				if mc, ok := ins.(*ssa.MakeClosure); ok {
+					// function literals written inside f are part of f; method values and other function
+					// values merely passed along (e.g. handlers registered with a mux) are not dependencies
+					if cf, ok := mc.Fn.(*ssa.Function); ok && cf.Parent() == f {
+						touch(cf)
+					}
+				}
+			}
+		}
+	}
+	for _, k := range keys {
+		addKey(k)
+	}
+	sort.Strings(out)
+	return out
 }
